@@ -22,6 +22,19 @@ WT=/tmp/seedv/$NAME
 mkdir -p /tmp/seedv
 rm -rf $WT; git -C /repo worktree prune; BASE=${SEED_BASE:-HEAD}   # the commit the patch was written against (meta.json: base_commit)
 git -C /repo worktree add -q --detach $WT $BASE || exit 2
+# later fix commits change what the checks see on the old base: prefer the current HEAD when the
+# patch still applies there
+if [ "$BASE" != HEAD ] && [ -z "${SEED_KEEP_BASE:-}" ]; then
+  git -C /repo worktree remove --force $WT
+  git -C /repo worktree add -q --detach $WT HEAD || exit 2
+  if ( cd $WT && git apply --check $PATCH 2>/dev/null ); then
+    echo "== patch applies at HEAD: verifying there"
+  else
+    git -C /repo worktree remove --force $WT
+    git -C /repo worktree add -q --detach $WT $BASE || exit 2
+    echo "== patch does not apply at HEAD: verifying at $BASE"
+  fi
+fi
 echo "== verifying $NAME"
 ( cd $WT && git apply $PATCH ) || { echo "PATCH DOES NOT APPLY"; git -C /repo worktree remove --force $WT; exit 2; }
 ( cd $WT && GOFLAGS= go build ./... && GOFLAGS= go test -vet=off -count=1 ./... 2>&1 | tail -2 )
